@@ -8,7 +8,9 @@ import (
 	"bytes"
 	"context"
 	"encoding/json"
+	"errors"
 	"fmt"
+	"io"
 	"io/ioutil"
 	"net/http"
 	"net/http/httptest"
@@ -57,6 +59,45 @@ type Case struct {
 	CT        HV                `json:"ct"`
 	Extra     map[string]string `json:"extra,omitempty"`
 	Body      Body              `json:"body"`
+	// Transport anomalies (sequence family, request A only): the body is
+	// Data followed by BodyPad filler bytes; the body reader fails after
+	// delivering all of that; the request context is already cancelled.
+	BodyPad   int    `json:"body_pad,omitempty"`
+	PadWith   string `json:"pad_with,omitempty"`
+	BodyErr   bool   `json:"body_err,omitempty"`
+	Cancelled bool   `json:"cancelled,omitempty"`
+	// Prev, when set, is executed immediately before this request in the
+	// same process, Repeat times (sequence family).
+	Prev   *Case `json:"prev,omitempty"`
+	Repeat int   `json:"repeat,omitempty"`
+}
+
+// padReader yields n copies of one byte.
+type padReader struct {
+	n int
+	b byte
+}
+
+func (p *padReader) Read(buf []byte) (int, error) {
+	if p.n <= 0 {
+		return 0, io.EOF
+	}
+	k := len(buf)
+	if k > p.n {
+		k = p.n
+	}
+	for i := 0; i < k; i++ {
+		buf[i] = p.b
+	}
+	p.n -= k
+	return k, nil
+}
+
+// failReader fails like a connection that broke off.
+type failReader struct{}
+
+func (failReader) Read([]byte) (int, error) {
+	return 0, errors.New("read tcp: connection reset by peer")
 }
 
 type lp struct{ Level, Path string }
@@ -228,12 +269,35 @@ func buildRequest(cs *Case) (*http.Request, error) {
 	}
 	req := &http.Request{Method: cs.Method, URL: u, Proto: "HTTP/1.1", ProtoMajor: 1, ProtoMinor: 1, Header: h,
 		Host: "dav.example", RequestURI: cs.Path, RemoteAddr: "127.0.0.1:1"}
-	if len(cs.Body.Data) > 0 {
+	if cs.BodyPad > 0 || cs.BodyErr {
+		readers := []io.Reader{bytes.NewReader(cs.Body.Data)}
+		total := len(cs.Body.Data)
+		if cs.BodyPad > 0 {
+			pb := byte('x')
+			if cs.PadWith != "" {
+				pb = cs.PadWith[0]
+			}
+			readers = append(readers, &padReader{n: cs.BodyPad, b: pb})
+			total += cs.BodyPad
+		}
+		if cs.BodyErr {
+			readers = append(readers, failReader{})
+			total += 4096 // what the client had announced
+		}
+		req.Body = ioutil.NopCloser(io.MultiReader(readers...))
+		req.ContentLength = int64(total)
+		h.Set("Content-Length", strconv.Itoa(total))
+	} else if len(cs.Body.Data) > 0 {
 		req.Body = ioutil.NopCloser(bytes.NewReader(cs.Body.Data))
 		req.ContentLength = int64(len(cs.Body.Data))
 		h.Set("Content-Length", strconv.Itoa(len(cs.Body.Data)))
 	} else {
 		req.Body = http.NoBody
+	}
+	if cs.Cancelled {
+		ctx, cancel := context.WithCancel(context.Background())
+		cancel()
+		return req.WithContext(ctx), nil
 	}
 	return req.WithContext(context.Background()), nil
 }
@@ -357,6 +421,10 @@ func reasons(cs *Case) []reason {
 	}
 	if cs.Level == "well-known" && cs.Target != "webdav" {
 		// answered by a redirect before the request is looked at
+		return nil
+	}
+	if cs.BodyPad > 0 || cs.BodyErr || cs.Cancelled {
+		// transport anomalies are not among the statement's malformed classes
 		return nil
 	}
 	dav := cs.Target == "caldav" || cs.Target == "carddav"
@@ -640,6 +708,10 @@ func defaultBody(target, method string) Body {
 // run executes one case and applies the oracle.
 func (e *env) run(cs *Case) {
 	c := e.c
+	if cs.Prev != nil {
+		e.runSeq(cs)
+		return
+	}
 	c.Journal(cs)
 	out := e.exec(cs)
 	c.JournalDone()
@@ -704,6 +776,115 @@ func (e *env) run(cs *Case) {
 		}
 	}
 	e.report2(cs, rs, out)
+}
+
+// anomalyKind names what made request A fail.
+func anomalyKind(a *Case) string {
+	switch {
+	case a.BodyPad > 0:
+		return "oversized body"
+	case a.BodyErr:
+		return "body read error"
+	case a.Cancelled:
+		return "cancelled context"
+	}
+	return "request"
+}
+
+// labelledReasons is reasons() filtered by the self-check.
+func (e *env) labelledReasons(cs *Case) []reason {
+	rs := reasons(cs)
+	if len(rs) > 0 && !selfCheck(cs, rs) {
+		b := &cs.Body
+		if b.Syntax != "" || b.Sem != "" || b.Mut == "valid" || strings.HasPrefix(b.Mut, "root-") {
+			e.c.Inconclusive(fmt.Sprintf("C13 harness self-check: by-construction label of a body disagrees with the harness XML reader (fam=%s doc=%s mut=%s)", cs.Fam, b.Doc, b.Mut))
+		}
+		var kept []reason
+		for _, r := range rs {
+			if r.Comp != "body" {
+				kept = append(kept, r)
+			}
+		}
+		rs = kept
+	}
+	return rs
+}
+
+// runSeq executes B alone, then Repeat times the pair (A = cs.Prev, B = cs)
+// back to back in this process. Handlers and backends are fresh per request:
+// only process-wide state of the library links A and B. B is judged by the
+// usual oracle; a violation that B alone does not show is keyed as a sequence.
+func (e *env) runSeq(cs *Case) {
+	c := e.c
+	a := cs.Prev
+	b := *cs
+	b.Prev, b.Repeat = nil, 0
+	c.Journal(cs)
+	defer c.JournalDone()
+	rs := e.labelledReasons(&b)
+	judgeB := func(out outcome, seq bool) bool {
+		c.Eval(1)
+		e.observe(&b, rs, out)
+		w := witness{cs, bodyText(b.Body.Data), rs, out}
+		if !seq {
+			bb := b
+			w.Case = &bb
+		}
+		switch {
+		case out.BuildErr != "":
+			return false
+		case out.Panicked:
+			k := entryPoint(&b) + " | " + parsedInput(&b) + " | panic " + out.Site
+			if seq {
+				k = "sequence: " + anomalyKind(a) + " then " + k
+			}
+			c.Report(k, fmt.Sprintf("%s %s panicked: %s", b.Target, b.Method, out.PanicVal), w)
+			return true
+		case len(rs) > 0 && violates2(&b, out):
+			if !seq {
+				e.report2(&b, rs, out)
+				return true
+			}
+			var classes []string
+			for _, r := range rs {
+				cl := r.Class
+				if i := strings.IndexAny(cl, ": "); i > 0 {
+					cl = cl[:i]
+				}
+				classes = append(classes, cl)
+			}
+			k := "sequence: " + anomalyKind(a) + " then " + entryPoint(&b) + " | " + strings.Join(classes, " + ") + " | " + observedString(out)
+			c.Report(k, fmt.Sprintf("after a request that failed (%s: %s %s %s), %s %s %s, malformed by construction (%s), was answered %s: state left by the failed request leaks into the next one",
+				anomalyKind(a), a.Target, a.Method, a.Path, b.Target, b.Method, b.Path, strings.Join(classes, ", "), observedString(out)), w)
+			return true
+		}
+		return false
+	}
+	if judgeB(e.exec(&b), false) {
+		return
+	}
+	reps := cs.Repeat
+	if reps <= 0 {
+		reps = 3
+	}
+	for rep := 0; rep < reps; rep++ {
+		aout := e.exec(a)
+		if aout.BuildErr != "" {
+			return
+		}
+		c.Eval(1)
+		st := strconv.Itoa(aout.Status)
+		if aout.Panicked {
+			st = "panic"
+			c.Report(entryPoint(a)+" | "+anomalyKind(a)+" | panic "+aout.Site, fmt.Sprintf("%s %s panicked: %s", a.Target, a.Method, aout.PanicVal),
+				witness{a, bodyText(a.Body.Data), nil, aout})
+		}
+		c.Observe("sequence: first request", a.Target+" "+a.Method+" | "+anomalyKind(a)+" | "+st, 1)
+		c.Observe("family", "sequence (first request)", 1)
+		if judgeB(e.exec(&b), true) {
+			return
+		}
+	}
 }
 
 func (e *env) report2(cs *Case, rs []reason, out outcome) {
